@@ -268,6 +268,8 @@ func (e *Engine) LoopProgress(f *ssa.Function) []LoopRes {
 			ok   bool
 			part string
 			cond string
+			// untracked: the step could not be bounded because it is a value outside the tracked model
+			untracked string
 		}
 		var best *cand
 		for _, ins := range l.head.Instrs {
@@ -383,6 +385,9 @@ func (e *Engine) LoopProgress(f *ssa.Function) []LoopRes {
 					if !a.proverFor(s).Entails(g) {
 						prog = false
 						c.why = fmt.Sprintf("cannot show that %s changes by >= 1 per iteration: need %s >= 0 on the back edge", pat.Name, g)
+						if why, un := a.untrackedIn(g); un {
+							c.untracked = untrackedPrefix + "the step of " + pat.Name + " is " + why
+						}
 					} else {
 						steps = append(steps, Add(ev, pl, -1).String())
 					}
@@ -459,6 +464,10 @@ func (e *Engine) LoopProgress(f *ssa.Function) []LoopRes {
 			res.Desc = best.phi.Comment + " | " + best.cond
 			res.Status = Failed
 			res.Why = best.why + "; bound: " + best.part
+			if best.untracked != "" {
+				res.Status = Unsupported
+				res.Why = best.untracked + "; " + res.Why
+			}
 		}
 		out = append(out, res)
 	}
